@@ -177,6 +177,8 @@ def run_cfg(chk, facts, cfg):
             if recv.get('k') != 'ref':
                 # by-value receivers: merges (consume operands) only
                 chk.ob('%s:%s:%s:receiver%s' % (PID, name, f['name'], sfx), 'E0-types', 'a by-value method of a state type is a merge', f['name'] == 'add', '', facts.loc(f['id']))
+    from ..effects import obligation as no_hidden_state
+    no_hidden_state(chk, PID, facts, sfx, 'no function of the crate reaches thread-local / cell / lock / atomic state (queries cannot depend on earlier queries)')
     # the one lazy static is initialised from constants
     lz = [f for f in facts.raw['fns'] if f['path'].endswith('__static_ref_initialize')]
     for f in lz:
